@@ -10,10 +10,12 @@ import (
 	"net/http"
 	"net/http/httptest"
 	"net/url"
+	"reflect"
 	"runtime/debug"
 	"sort"
 	"strconv"
 	"strings"
+	"sync"
 	"testing"
 	"unicode/utf8"
 
@@ -31,6 +33,8 @@ type ErrSpec struct {
 	Code    string `json:"code,omitempty"`
 	Desc    string `json:"desc,omitempty"`
 	Wrapped bool   `json:"wrapped,omitempty"` // handed over inside a plain error (fmt.Errorf("storage: %w", e))
+	// Bytes: which of "code", "desc" hold the Latin-1 spelling of a BYTE string (see Case.Bytes)
+	Bytes []string `json:"bytes,omitempty"`
 }
 
 // Case is one authorization response (or error) pushed through one delivery path, or (via=seq) a sequence of such
@@ -46,7 +50,16 @@ type Case struct {
 	SessionState string   `json:"session_state"`
 	Scopes       []string `json:"scopes,omitempty"`
 
+	// Bytes names the value fields (state, session_state, code, access_token, id_token, token_type, err_code, err_desc) that
+	// hold the LATIN-1 SPELLING of a byte string: every rune U+0000..U+00FF stands for one byte, so that values which are
+	// not valid UTF-8 (what a client can send percent-encoded, what a storage or driver can hold) survive the JSON form of
+	// the case. run() replaces the spelling by the byte string before anything is executed.
+	Bytes []string `json:"bytes,omitempty"`
+
 	// via=http
+	// StoreErr (error paths create_fail, cb_store_fail, cb_client_fail): the error VALUE the failing storage call returns
+	// (nil: the anonymous injected fault of vkit)
+	StoreErr  *ErrSpec `json:"store_err,omitempty"`
 	AppType   string `json:"app_type,omitempty"`
 	ErrPath   string `json:"err_path,omitempty"` // none | no_login | cb_store_fail | cb_client_fail | bad_prompt | prompt_none | create_fail | unsupported_rt | no_scope
 	JWTAccess bool   `json:"jwt_access,omitempty"`
@@ -116,8 +129,7 @@ func genSeq(t *rapid.T) Case {
 			s.ErrRef = 0
 		}
 		if s.ErrRef > 0 {
-			sp := c.SharedErrs[s.ErrRef-1]
-			s.ErrKind, s.ErrCode, s.ErrDesc = sp.Kind, sp.Code, sp.Desc
+			s.inheritErr(c.SharedErrs[s.ErrRef-1])
 		}
 	}
 	return c
@@ -126,13 +138,60 @@ func genSeq(t *rapid.T) Case {
 func genErrSpec(t *rapid.T) ErrSpec {
 	sp := ErrSpec{Kind: rapid.SampledFrom(append([]string{"json", "plain"}, errCodes...)).Draw(t, "sharedkind")}
 	if sp.Kind == "json" {
-		sp.Code = genValue(t, "sharedcode")
+		sp.Code = genMaybeBytes(t, "sharedcode", "code", &sp.Bytes)
 	}
 	if rapid.IntRange(0, 7).Draw(t, "sharednodesc") > 0 || sp.Kind == "plain" {
-		sp.Desc = genValue(t, "shareddesc")
+		sp.Desc = genMaybeBytes(t, "shareddesc", "desc", &sp.Bytes)
 	}
 	sp.Wrapped = rapid.IntRange(0, 3).Draw(t, "sharedwrapped") == 0
 	return sp
+}
+
+// genMaybeBytes: a value for the named field; one in five is a byte string (Latin-1 spelling, the field is noted in flags).
+func genMaybeBytes(t *rapid.T, label, field string, flags *[]string) string {
+	if rapid.IntRange(0, 4).Draw(t, label+"raw") == 0 {
+		*flags = append(*flags, field)
+		return genByteValue(t, label)
+	}
+	return genValue(t, label)
+}
+
+func genMaybeBytesTokenish(t *rapid.T, label, field string, flags *[]string) string {
+	if rapid.IntRange(0, 4).Draw(t, label+"raw") == 0 {
+		*flags = append(*flags, field)
+		return genByteValue(t, label)
+	}
+	return genTokenish(t, label)
+}
+
+func has(list []string, x string) bool {
+	for _, l := range list {
+		if l == x {
+			return true
+		}
+	}
+	return false
+}
+
+// setFlag makes the membership of field in *flags equal to on.
+func setFlag(flags *[]string, field string, on bool) {
+	out := []string(nil)
+	for _, f := range *flags {
+		if f != field {
+			out = append(out, f)
+		}
+	}
+	if on {
+		out = append(out, field)
+	}
+	*flags = out
+}
+
+// inheritErr: the step answers the long-lived error value sp; its own err_* fields describe that value.
+func (c *Case) inheritErr(sp ErrSpec) {
+	c.ErrKind, c.ErrCode, c.ErrDesc = sp.Kind, sp.Code, sp.Desc
+	setFlag(&c.Bytes, "err_code", has(sp.Bytes, "code"))
+	setFlag(&c.Bytes, "err_desc", has(sp.Bytes, "desc"))
 }
 
 func genStep(t *rapid.T) Case {
@@ -161,10 +220,10 @@ func genSingle(t *rapid.T, vias []string) Case {
 		c.URI, c.URIKind = genHostileURI(t), "hostile"
 	}
 	if rapid.IntRange(0, 9).Draw(t, "nostate") > 0 {
-		c.State = genValue(t, "state")
+		c.State = genMaybeBytes(t, "state", "state", &c.Bytes)
 	}
 	if rapid.IntRange(0, 2).Draw(t, "withss") > 0 {
-		c.SessionState = genValue(t, "ss")
+		c.SessionState = genMaybeBytes(t, "ss", "session_state", &c.Bytes)
 	}
 	c.Scopes = append([]string{"openid"}, rapid.SliceOfNDistinct(rapid.SampledFrom(stdScopes), 0, 2, rapid.ID[string]).Draw(t, "scopes")...)
 	switch c.Via {
@@ -175,6 +234,10 @@ func genSingle(t *rapid.T, vias []string) Case {
 		}
 		c.ErrPath = rapid.SampledFrom([]string{"none", "none", "none", "none", "none", "none", "no_login", "cb_store_fail", "cb_client_fail", "bad_prompt", "prompt_none", "create_fail", "unsupported_rt", "no_scope"}).Draw(t, "errpath")
 		c.JWTAccess = rapid.Bool().Draw(t, "jwtat")
+		if storeFails(c.ErrPath) && rapid.IntRange(0, 3).Draw(t, "storeerr") > 0 {
+			sp := genErrSpec(t)
+			c.StoreErr = &sp
+		}
 	case "url", "form":
 		c.Resp = rapid.SampledFrom([]string{"code", "token", "error"}).Draw(t, "resp")
 		if c.Resp == "code" {
@@ -187,27 +250,113 @@ func genSingle(t *rapid.T, vias []string) Case {
 	}
 	switch c.Resp {
 	case "code":
-		c.Code = genTokenish(t, "code")
+		c.Code = genMaybeBytesTokenish(t, "code", "code", &c.Bytes)
 	case "token":
-		c.IDToken = genTokenish(t, "idt")
+		c.IDToken = genMaybeBytesTokenish(t, "idt", "id_token", &c.Bytes)
 		if c.RT == "id_token token" {
-			c.AccessToken = genTokenish(t, "at")
+			c.AccessToken = genMaybeBytesTokenish(t, "at", "access_token", &c.Bytes)
 			c.ExpiresIn = rapid.SampledFrom([]uint64{0, 1, 299, 300, 3600, 1<<32 + 1, 1<<64 - 1}).Draw(t, "exp")
 		}
 		c.TokenType = "Bearer"
 		if rapid.IntRange(0, 4).Draw(t, "oddtt") == 0 {
-			c.TokenType = genValue(t, "tt")
+			c.TokenType = genMaybeBytes(t, "tt", "token_type", &c.Bytes)
 		}
 	case "error":
 		c.ErrKind = rapid.SampledFrom(append([]string{"plain", "plain", "json"}, errCodes...)).Draw(t, "errkind")
 		if c.ErrKind == "json" {
-			c.ErrCode = genValue(t, "errcode")
+			c.ErrCode = genMaybeBytes(t, "errcode", "err_code", &c.Bytes)
 		}
 		if rapid.IntRange(0, 7).Draw(t, "nodesc") > 0 || c.ErrKind == "plain" {
-			c.ErrDesc = genValue(t, "desc")
+			c.ErrDesc = genMaybeBytes(t, "desc", "err_desc", &c.Bytes)
 		}
 	}
 	return c
+}
+
+// storeFails: error paths of the HTTP flow on which a storage call fails.
+func storeFails(errPath string) bool {
+	return errPath == "create_fail" || errPath == "cb_store_fail" || errPath == "cb_client_fail"
+}
+
+// ---- byte strings: from the serialised case to the executed one ----------------------------
+
+func (c *Case) valueField(name string) *string {
+	switch name {
+	case "state":
+		return &c.State
+	case "session_state":
+		return &c.SessionState
+	case "code":
+		return &c.Code
+	case "access_token":
+		return &c.AccessToken
+	case "id_token":
+		return &c.IDToken
+	case "token_type":
+		return &c.TokenType
+	case "err_code":
+		return &c.ErrCode
+	case "err_desc":
+		return &c.ErrDesc
+	}
+	return nil
+}
+
+func resolveSpec(sp ErrSpec) (ErrSpec, bool) {
+	ok := true
+	for _, f := range sp.Bytes {
+		var good bool
+		switch f {
+		case "code":
+			sp.Code, good = unspell(sp.Code)
+		case "desc":
+			sp.Desc, good = unspell(sp.Desc)
+		}
+		ok = ok && good
+	}
+	return sp, ok
+}
+
+// resolve returns the case that is executed: every field named in Bytes is replaced by the byte string it spells
+// (recursively for steps, long-lived error values and the storage's error). ok=false: a flagged field is not a Latin-1
+// spelling, or the name is unknown (hand-written / fuzzed cases only). The case handed in is not modified.
+func resolve(c Case) (Case, bool) {
+	ok := true
+	seen := map[string]bool{}
+	for _, f := range c.Bytes {
+		p := c.valueField(f)
+		if p == nil || seen[f] {
+			ok = false
+			continue
+		}
+		seen[f] = true
+		var good bool
+		*p, good = unspell(*p)
+		ok = ok && good
+	}
+	if c.StoreErr != nil {
+		sp, good := resolveSpec(*c.StoreErr)
+		c.StoreErr, ok = &sp, ok && good
+	}
+	if len(c.SharedErrs) > 0 {
+		specs := make([]ErrSpec, len(c.SharedErrs))
+		for i, sp := range c.SharedErrs {
+			var good bool
+			specs[i], good = resolveSpec(sp)
+			ok = ok && good
+		}
+		c.SharedErrs = specs
+	}
+	if len(c.Steps) > 0 {
+		steps := make([]Case, len(c.Steps))
+		for i, s := range c.Steps {
+			var good bool
+			steps[i], good = resolve(s)
+			ok = ok && good
+		}
+		c.Steps = steps
+	}
+	return c, ok
 }
 
 // ---- oracle -------------------------------------------------------------------------
@@ -304,6 +453,13 @@ func (j *judge) values(ch string, got url.Values, wants []want) {
 			continue
 		}
 		if g[0] == w.val {
+			continue
+		}
+		if ch == "form" && !utf8.ValidString(w.val) {
+			// an HTML document is text: a byte sequence that is not valid UTF-8 has no spelling in it (a browser decoding the
+			// page replaces it before it submits the form), so no implementation can deliver it through form_post; only the
+			// markup claims are judged for such values
+			res.Label("grey:form-invalid-utf8")
 			continue
 		}
 		if ch == "form" && strings.ContainsAny(w.val, "\r\n\x00") && normNL(g[0]) == normNL(w.val) {
@@ -422,13 +578,23 @@ func (j *judge) location(loc string, wants []want) {
 	}
 }
 
+// hasInvalidUTF8: some value of the (resolved) case is a byte string that is not valid UTF-8.
+func hasInvalidUTF8(c Case) bool {
+	for _, v := range []string{c.State, c.SessionState, c.Code, c.AccessToken, c.IDToken, c.TokenType, c.ErrCode, c.ErrDesc, c.URI} {
+		if !utf8.ValidString(v) {
+			return true
+		}
+	}
+	return false
+}
+
 var scriptSchemes = map[string]bool{"javascript": true, "data": true, "vbscript": true}
 
 // form judges an auto-submitting form document.
 func (j *judge) form(body []byte, wants []want, valuesToo bool) {
 	res := j.res
 	res.Label("channel:form")
-	f := parseFormDoc(body)
+	f := parseFormDoc(body, hasInvalidUTF8(j.c))
 	if len(f.problems) > 0 {
 		res.Fail("C11:form_post:markup-injection", "%s: the form document deviates from the fixed skeleton (html > head > meta, body[onload] > form[method=post][action] > hidden inputs): %s; redirect_uri=%q state=%q", j.where, strings.Join(f.problems, "; "), clip(j.c.URI), clip(j.c.State))
 	}
@@ -470,6 +636,7 @@ var signKey = vkit.SignKeySpec{KeyName: "ed1", Alg: "EdDSA", KID: "sig1"}
 // env is the provider all responses of a case come from: a fresh one per single case, ONE for all steps of a sequence.
 type env struct {
 	st      *vkit.Store
+	fs      *faultyStorage
 	sut     *vkit.SUT
 	ag      *vkit.Agent
 	nClient int
@@ -484,14 +651,69 @@ type sharedErr struct {
 
 func newEnv(router string, specs []ErrSpec) *env {
 	st := vkit.NewStore(nil, signKey, vkit.StorePolicy{})
-	sut := vkit.MustBuild(vkit.DefaultProviderSpec(router), st)
-	e := &env{st: st, sut: sut, ag: vkit.NewAgent(sut)}
+	fs := &faultyStorage{}
+	spec := vkit.DefaultProviderSpec(router)
+	spec.WrapStorage = func(s op.Storage) op.Storage { fs.Storage = s; return fs }
+	sut := vkit.MustBuild(spec, st)
+	e := &env{st: st, fs: fs, sut: sut, ag: vkit.NewAgent(sut)}
 	for _, sp := range specs {
 		var se sharedErr
 		se.val, se.code, se.desc, se.ok = buildErrorSpec(sp)
 		e.shared = append(e.shared, se)
 	}
 	return e
+}
+
+// faultyStorage sits between the provider and the storage of the case: the calls named by fail return the error VALUE
+// the case generated (a typed / decoded *oidc.Error with its own description, optionally wrapped, or a plain error)
+// instead of reaching the storage.
+type faultyStorage struct {
+	op.Storage
+	mu   sync.Mutex
+	fail map[string]error
+}
+
+func (s *faultyStorage) set(err error, methods ...string) {
+	s.mu.Lock()
+	defer s.mu.Unlock()
+	s.fail = map[string]error{}
+	for _, m := range methods {
+		s.fail[m] = err
+	}
+}
+
+func (s *faultyStorage) failure(method string) error {
+	s.mu.Lock()
+	defer s.mu.Unlock()
+	return s.fail[method]
+}
+
+func (s *faultyStorage) CreateAuthRequest(ctx context.Context, r *oidc.AuthRequest, userID string) (op.AuthRequest, error) {
+	if err := s.failure("CreateAuthRequest"); err != nil {
+		return nil, err
+	}
+	return s.Storage.CreateAuthRequest(ctx, r, userID)
+}
+
+func (s *faultyStorage) SaveAuthCode(ctx context.Context, id, code string) error {
+	if err := s.failure("SaveAuthCode"); err != nil {
+		return err
+	}
+	return s.Storage.SaveAuthCode(ctx, id, code)
+}
+
+func (s *faultyStorage) DeleteAuthRequest(ctx context.Context, id string) error {
+	if err := s.failure("DeleteAuthRequest"); err != nil {
+		return err
+	}
+	return s.Storage.DeleteAuthRequest(ctx, id)
+}
+
+func (s *faultyStorage) GetClientByClientID(ctx context.Context, id string) (op.Client, error) {
+	if err := s.failure("GetClientByClientID"); err != nil {
+		return nil, err
+	}
+	return s.Storage.GetClientByClientID(ctx, id)
 }
 
 // brokenWriter is the ResponseWriter of a user agent that went away: it takes `accept` body bytes and fails from then on.
@@ -568,6 +790,7 @@ type httpRun struct {
 	accept int
 	cl     *vkit.ClientSpec
 	out    *httpOut
+	serr   error  // the error value the failing storage call returns (nil: vkit's injected fault)
 	id     string // auth request the authorize request created
 	next   int    // 0: authorize, 1: callback, 2: finished
 }
@@ -587,7 +810,14 @@ func newHTTPRun(e *env, c Case, mode string, accept int) *httpRun {
 		ResponseTypes: rtsReg, RedirectURIs: []string{c.URI}, JWTAccessToken: c.JWTAccess}
 	// no request is being served while a client is registered (the steps of an interleaving are registered before any of them starts)
 	e.st.Clients[cl.ID] = cl
-	return &httpRun{e: e, c: c, mode: mode, accept: accept, cl: cl, out: &httpOut{}}
+	h := &httpRun{e: e, c: c, mode: mode, accept: accept, cl: cl, out: &httpOut{}}
+	if c.StoreErr != nil && storeFails(c.ErrPath) {
+		// a fresh value per flow
+		if ev, _, _, ok := buildErrorSpec(*c.StoreErr); ok {
+			h.serr = ev
+		}
+	}
+	return h
 }
 
 // authorize sends the authorization request. The policy of the storage is read by CreateAuthRequest, i.e. before any
@@ -597,6 +827,7 @@ func (h *httpRun) authorize(g *gate) {
 	st.Policy.SessionState = c.SessionState
 	st.Policy.PromptNoneLoginError = c.ErrPath == "prompt_none"
 	st.SetFaults()
+	h.e.fs.set(nil)
 	q := url.Values{"client_id": {h.cl.ID}, "redirect_uri": {c.URI}, "response_type": {c.RT}, "scope": {strings.Join(c.Scopes, " ")}, "nonce": {"n-1"}}
 	if c.State != "" {
 		q.Set("state", c.State)
@@ -612,10 +843,15 @@ func (h *httpRun) authorize(g *gate) {
 	case "no_scope":
 		q.Del("scope")
 	case "create_fail":
-		st.SetFaults(vkit.Fault{Method: "CreateAuthRequest", Kind: "error"})
+		if h.serr != nil {
+			h.e.fs.set(h.serr, "CreateAuthRequest")
+		} else {
+			st.SetFaults(vkit.Fault{Method: "CreateAuthRequest", Kind: "error"})
+		}
 	}
 	h.next = 2
 	auth := h.e.get(h.e.sut.Paths["authorization"], q, h.accept, g)
+	h.e.fs.set(nil)
 	out.final, out.stage = auth, "authorize"
 	if auth.Panic != nil {
 		out.panicFP = auth.PanicFrame()
@@ -636,12 +872,23 @@ func (h *httpRun) callback(g *gate) {
 	c, st, out := h.c, h.e.st, h.out
 	switch c.ErrPath {
 	case "cb_store_fail":
-		st.SetFaults(vkit.Fault{Method: "SaveAuthCode", Kind: "error"}, vkit.Fault{Method: "DeleteAuthRequest", Kind: "error"})
+		if h.serr != nil {
+			h.e.fs.set(h.serr, "SaveAuthCode", "DeleteAuthRequest")
+		} else {
+			st.SetFaults(vkit.Fault{Method: "SaveAuthCode", Kind: "error"}, vkit.Fault{Method: "DeleteAuthRequest", Kind: "error"})
+		}
 	case "cb_client_fail":
-		st.SetFaults(vkit.Fault{Method: "GetClientByClientID", Kind: "error"})
+		if h.serr != nil {
+			h.e.fs.set(h.serr, "GetClientByClientID")
+		} else {
+			st.SetFaults(vkit.Fault{Method: "GetClientByClientID", Kind: "error"})
+		}
 	}
 	h.next = 2
 	cb := h.e.get(h.e.sut.CallbackPath(), url.Values{"id": {h.id}}, h.accept, g)
+	if h.serr != nil {
+		h.e.fs.set(nil)
+	}
 	if g == nil {
 		st.SetFaults()
 	}
@@ -841,9 +1088,39 @@ func judgeHTTPOut(res *vkit.Result, e *env, c Case, out *httpOut) {
 	if out.stage == "callback" && c.SessionState != "" {
 		wants = append(wants, want{name: "session_state", val: c.SessionState})
 	}
-	// what the provider produced as error / error_description is not predictable from the statement; it is the same
-	// in every response mode, so the query-mode run of the same scenario is the reference (metamorphic)
-	if c.Mode != "query" {
+	// the storage call failed with a generated error value that has a description: does the provider hand the storage's
+	// description on to the client on this path? The reference is the same scenario (query mode) with a description of
+	// plain letters: when that one arrives (possibly inside a text of the provider), the provider produces "the storage's
+	// description (inside that text)" as error_description, and this is what must arrive here, byte for byte
+	probed := false
+	if c.StoreErr != nil && storeFails(c.ErrPath) && c.StoreErr.Desc != "" {
+		res.Label("storage-error:" + kindClass(c.StoreErr.Kind))
+		pc, sp := c, *c.StoreErr
+		sp.Desc = probeDesc
+		pc.StoreErr = &sp
+		ref := runHTTP(e, pc, "query", -1)
+		if ref.panicFP == "" && delivered(ref.final, c.URI) == "redirect" {
+			l := decodeLocation(ref.final.Location())
+			if l.parseErr == nil && l.queryErr == nil {
+				rest, _ := subtract(l.query, preQuery(c.URI))
+				if d := rest["error_description"]; len(d) == 1 && strings.Count(d[0], probeDesc) == 1 {
+					i := strings.Index(d[0], probeDesc)
+					wants = append(wants, want{name: "error_description", val: d[0][:i] + c.StoreErr.Desc + d[0][i+len(probeDesc):]})
+					if e := rest["error"]; len(e) == 1 && e[0] != "" {
+						errWant = want{name: "error", val: e[0]}
+					}
+					probed = true
+					res.Label("error-description:the-storage's")
+				}
+			}
+		}
+		if !probed {
+			res.Label("error-description:the-provider's-own")
+		}
+	}
+	// what the provider produced as error / error_description is otherwise not predictable from the statement; it is the
+	// same in every response mode, so the query-mode run of the same scenario is the reference (metamorphic)
+	if !probed && c.Mode != "query" {
 		ref := runHTTP(e, c, "query", -1)
 		if ref.panicFP == "" && delivered(ref.final, c.URI) == "redirect" {
 			l := decodeLocation(ref.final.Location())
@@ -861,6 +1138,15 @@ func judgeHTTPOut(res *vkit.Result, e *env, c Case, out *httpOut) {
 	}
 	wants = append(wants, errWant)
 	j.location(out.final.Location(), wants)
+}
+
+const probeDesc = "probe-description-7f3a"
+
+func kindClass(kind string) string {
+	if kind == "plain" || kind == "json" {
+		return kind
+	}
+	return "typed"
 }
 
 // ---- execution: direct functions --------------------------------------------------------
@@ -912,10 +1198,20 @@ func buildErrorSpec(sp ErrSpec) (error, string, string, bool) {
 		}
 		return errors.New(sp.Desc), "server_error", sp.Desc, true
 	case "json":
-		b, _ := json.Marshal(map[string]string{"error": sp.Code, "error_description": sp.Desc})
-		oe = new(oidc.Error)
-		if err := json.Unmarshal(b, oe); err != nil || sp.Code == "" {
+		// an *oidc.Error with an arbitrary code: decoded from JSON as an RP-side caller would get it; JSON cannot carry byte
+		// strings, those are put into the (exported) fields directly
+		if sp.Code == "" {
 			return nil, "", "", false
+		}
+		oe = new(oidc.Error)
+		if utf8.ValidString(sp.Code) && utf8.ValidString(sp.Desc) {
+			b, _ := json.Marshal(map[string]string{"error": sp.Code, "error_description": sp.Desc})
+			if err := json.Unmarshal(b, oe); err != nil {
+				return nil, "", "", false
+			}
+		} else {
+			reflect.ValueOf(oe).Elem().FieldByName("ErrorType").SetString(sp.Code)
+			oe.Description = sp.Desc
 		}
 		code = sp.Code
 	default:
@@ -1092,7 +1388,11 @@ func validCase(c Case) bool {
 			return false
 		}
 	}
-	for _, sp := range c.SharedErrs {
+	specs := c.SharedErrs
+	if c.StoreErr != nil {
+		specs = append(append([]ErrSpec(nil), specs...), *c.StoreErr)
+	}
+	for _, sp := range specs {
 		if !utf8.ValidString(sp.Code) || !utf8.ValidString(sp.Desc) {
 			return false
 		}
@@ -1113,8 +1413,15 @@ func run(c Case) (res *vkit.Result) {
 		}
 	}()
 	if !validCase(c) {
+		// the serialised form of a case is JSON: byte strings are spelled in Latin-1 (Case.Bytes), never raw
 		res.Grey = true
-		res.Label("grey:not-utf8")
+		res.Label("grey:case-not-utf8")
+		return res
+	}
+	c, ok := resolve(c)
+	if !ok {
+		res.Grey = true
+		res.Label("grey:bytes-field-not-a-latin1-spelling")
 		return res
 	}
 	if c.Via == "seq" {
@@ -1293,10 +1600,25 @@ func classify(res *vkit.Result, c Case) {
 	if c.TokenType != "Bearer" {
 		values = append(values, c.TokenType)
 	}
+	if c.StoreErr != nil && storeFails(c.ErrPath) {
+		values = append(values, c.StoreErr.Desc, c.StoreErr.Code)
+		if !utf8.ValidString(c.StoreErr.Desc) {
+			res.Label("bytes:storage-error-description")
+		}
+	}
 	classSet := map[string]bool{}
 	for _, v := range values {
 		for _, cl := range charClasses(v) {
 			classSet[cl] = true
+		}
+		for _, k := range invalidKinds(v) {
+			res.Label("invalid-utf8:" + k)
+		}
+	}
+	// which parameters of this response are byte strings that are not valid UTF-8
+	for _, f := range c.Bytes {
+		if p := c.valueField(f); p != nil && !utf8.ValidString(*p) {
+			res.Label("bytes:" + f)
 		}
 	}
 	classes := make([]string, 0, len(classSet))
@@ -1336,6 +1658,9 @@ func classify(res *vkit.Result, c Case) {
 	}
 	res.NonTrivial = len(classes) > 0 || uriQ
 	res.Key = fmt.Sprintf("%s|%s|%s|%s|%s|%s|q=%v|f=%v|%v", c.Via, c.Router, modeL, c.RT, what, c.URIKind, uriQ, strings.Contains(c.URI, "#"), classes)
+	if c.StoreErr != nil && storeFails(c.ErrPath) {
+		res.Key += "|storeerr:" + kindClass(c.StoreErr.Kind)
+	}
 	if c.BrokenWriter {
 		res.Key += fmt.Sprintf("|broken@%d", c.Accept/100)
 	}
@@ -1348,7 +1673,7 @@ func classify(res *vkit.Result, c Case) {
 	}
 	obs := []string{}
 	for _, l := range res.Labels {
-		for _, p := range []string{"channel:", "http:", "form-action:", "form_post-error-delivered-by:", "grey:", "markup-only", "form:refused", "aborted:", "error-value:"} {
+		for _, p := range []string{"channel:", "http:", "form-action:", "form_post-error-delivered-by:", "grey:", "markup-only", "form:refused", "aborted:", "error-value:", "error-description:"} {
 			if strings.HasPrefix(l, p) {
 				obs = append(obs, l)
 			}
@@ -1369,14 +1694,16 @@ func hasRepeatedKey(q url.Values) bool {
 var prop = vkit.Prop[Case]{
 	ID: "C11",
 	Rule: "cases = delivery path (HTTP authorize->login->callback on both routers incl. 7 error paths | AuthResponseURL | AuthResponseFormPost | AuthRequestError | TryErrorRedirect) x response_mode (absent, query, fragment, form_post) x response type (code, id_token, id_token token) x success/error x " +
-		"values for state / session_state / code / tokens / error / error_description built from alphanumerics, standard and URL base64, ASCII punctuation, percent sequences, full-Unicode strings, markup fragments, control characters, 200-6000 character runs x " +
+		"values for state / session_state / code / tokens / error / error_description built from alphanumerics, standard and URL base64, ASCII punctuation, percent sequences, full-Unicode strings, markup fragments, control characters, 200-6000 character runs; " +
+		"one value in five is a BYTE string that need not be valid UTF-8 (what a client can send percent-encoded in state, what a storage holds as session state or code, what a driver reports as failure text): 1-5 pieces from lone continuation bytes, overlong forms, truncated multi-byte sequences (also right before & = quote >), UTF-8 encoded surrogates, sequences beyond U+10FFFF and the bytes FE / FF, Latin-1 text, random bytes, next to valid multi-byte characters, NUL and U+FFFD itself (so that a replacement or a transcoding is visible) and pieces of the character classes above; the case holds the Latin-1 spelling of such a value (Case.Bytes names the fields) and stays JSON; all comparisons are on the bytes of the Go strings x " +
 		"redirect URI (https, http, loopback, IPv6, custom scheme incl. opaque; 0-4 pre-existing query pairs with repeated keys, '+', %20, escaped delimiters, bare keys; optional fragment; for AuthResponseFormPost also hostile strings). " +
 		"Decoding as a user agent: query = form-decoded RawQuery of the Location, fragment = text after '#' of the raw Location form-decoded once, form = golang.org/x/net/html parse tree compared with the fixed skeleton. " +
-		"Excluded from the value domain (counted as grey labels): invalid UTF-8; NUL / CR / LF in form_post values (HTML cannot carry them); registered URIs whose own query uses a response parameter name, contains ';' or bad escapes, userinfo; action equality for non-http(s) schemes (html/template's inert #ZgotmplZ accepted) and hostile URIs. " +
+		"On the HTTP error paths on which a storage call fails (CreateAuthRequest; SaveAuthCode / DeleteAuthRequest; GetClientByClientID) three cases in four let the call return a generated error VALUE (typed or JSON-decoded *oidc.Error with its own code and description, optionally wrapped with %w, or a plain error; description drawn like every other value, byte strings included): a reference run of the same scenario in query mode with a description of plain letters tells whether the provider hands the storage's description on as error_description (verbatim or inside a text of its own) - if so exactly that description must arrive, otherwise the query-mode run of the same scenario is the reference. " +
+		"Excluded from the value domain (counted as grey labels): byte strings that are not valid UTF-8 as VALUES of a form_post page (an HTML document cannot spell them, a browser replaces them before it submits the form: such pages are judged for markup only, after decoding them the way a browser does) and in redirect URIs; NUL / CR / LF in form_post values (HTML cannot carry them); registered URIs whose own query uses a response parameter name, contains ';' or bad escapes, userinfo; action equality for non-http(s) schemes (html/template's inert #ZgotmplZ accepted) and hostile URIs. " +
 		"One case in five is a SEQUENCE of 2-5 such responses (success and error, mixed modes / types / paths, auth requests with and without session state) produced one after the other by ONE provider in one process: some steps write to a ResponseWriter that accepts 0-700 body bytes and fails from then on (not judged: nothing arrives; a fixed closing form_post response follows), some error steps answer one of 0-2 long-lived error VALUES of the sequence (typed / JSON-decoded *oidc.Error, optionally wrapped, or plain) instead of a fresh one; every step is judged with the per-response oracle. " +
 		"One case in five is an INTERLEAVING of 2-3 responses on ONE provider (HTTP flows ending in success, interaction_required, or a validation error of the authorize endpoint (prompt, scope, response type, login_required from the storage); direct AuthRequestError / TryErrorRedirect / AuthResponseURL / AuthResponseFormPost; every second case: requests of the same kind with their own state / session_state / redirect URI): each response is produced in its own goroutine and every getter the library calls on the auth request (GetState, GetSessionState, GetResponseMode, GetRedirectURI, GetResponseType), Authorizer.Encoder() and Encoder.Encode is a gate of the harness; the generated schedule parks step i at its HoldAt-th gate call (0-10) while the next 1-2 steps run until they finish or park, then releases it; one goroutine runs at a time and every hand-over is awaited (deterministic, replays exactly); every response is judged with the per-response oracle (the code of an interleaved flow = the code the storage holds for ITS auth request). One error step in four answers a long-lived error VALUE of the case. " +
 		"Per response: each parameter of THIS response is recovered exactly once and unchanged, and no named response parameter the provider did not produce for it (code, state, session_state, tokens, error, error_description) arrives with a value. " +
-		"non-trivial = some value has a character outside [A-Za-z0-9_-] or the redirect URI has a query; distinct = (path, router, mode, type, response kind / error path, URI kind, query?, fragment?, set of character classes[, broken writer, shared error]); a sequence = the list of its steps' classes; an interleaving = the list of its steps' classes and the gates they were held at",
+		"non-trivial = some value has a character outside [A-Za-z0-9_-] or the redirect URI has a query; distinct = (path, router, mode, type, response kind / error path, URI kind, query?, fragment?, set of character classes incl. invalid-utf8[, broken writer, shared error, kind of the storage's error value]); a sequence = the list of its steps' classes; an interleaving = the list of its steps' classes and the gates they were held at",
 	Gen: genCase,
 	Run: run,
 }
